@@ -13,6 +13,7 @@ import (
 	"bytes"
 	"encoding/json"
 	"fmt"
+	"github.com/Trendyol/go-dcp/leaderelector"
 	"github.com/Trendyol/go-dcp/stream"
 	"net"
 	"net/http"
@@ -64,7 +65,8 @@ type c10CBResult struct {
 	Rounds    []string          `json:"rounds"`
 	Pubs      map[string]string `json:"pubs"`
 	Keys      []string          `json:"keys"`
-	Timing    bool              `json:"timing"` // convergence not reached in the generous bound: inconclusive
+	Timing    bool              `json:"timing"`  // convergence not reached in the generous bound: inconclusive
+	Settled   [][2]int          `json:"settled"` // (member number, group size) every live member holds when the history ends
 }
 
 func c10Child(raw json.RawMessage) any {
@@ -105,6 +107,16 @@ func c10Child(raw json.RawMessage) any {
 				if n == 0 || cur.TotalMembers != len(live) || cur.MemberNumber != rank+1 {
 					ok = false
 				}
+			}
+			res.Settled = res.Settled[:0]
+			for _, m := range live {
+				m.mu.Lock()
+				if n := len(m.pubs); n > 0 {
+					res.Settled = append(res.Settled, [2]int{m.pubs[n-1].MemberNumber, m.pubs[n-1].TotalMembers})
+				} else {
+					res.Settled = append(res.Settled, [2]int{0, 0})
+				}
+				m.mu.Unlock()
 			}
 			cur := strings.Join(parts, " ")
 			if cur != last {
@@ -289,6 +301,9 @@ type c10Follower struct {
 type c10Leader struct {
 	Followers []c10Follower `json:"followers"`
 	Rounds    int           `json:"rounds"` // monitor rounds observed (5 s each, hard-coded in the library)
+	// EarlyRegs: this many followers have registered with the node BEFORE its "you are the leader now" callback runs
+	// (the elector makes an API call before invoking the handler, other pods register as soon as they see the lease)
+	EarlyRegs int `json:"early_regs,omitempty"`
 }
 
 type fakeFollower struct {
@@ -406,7 +421,18 @@ func c10ExecLeaderCore(sc c10Leader, newDisc func(string, EventBus.Bus), dropDis
 	})
 	sd := servicediscovery.NewServiceDiscovery(cfg, bus)
 	newDisc("leader", bus)
-	sd.BeLeader()
+	// leadership arrives through the elector's callback, as in production
+	handler, isHandler := stream.NewLeaderElection(cfg, sd, bus).(leaderelector.Handler)
+	becomeLeader := func() {
+		if isHandler {
+			handler.OnBecomeLeader()
+		} else {
+			sd.BeLeader()
+		}
+	}
+	if sc.EarlyRegs <= 0 {
+		becomeLeader()
+	}
 	var fs []*fakeFollower
 	followerPubs := map[string]*[]membership.Model{}
 	var fmu sync.Mutex
@@ -427,6 +453,12 @@ func c10ExecLeaderCore(sc c10Leader, newDisc func(string, EventBus.Bus), dropDis
 		}
 		fs = append(fs, ff)
 		sd.Add(servicediscovery.NewService(ff, name, f.JoinTime))
+		if sc.EarlyRegs > 0 && i+1 == sc.EarlyRegs {
+			becomeLeader()
+		}
+	}
+	if sc.EarlyRegs > len(sc.Followers) {
+		becomeLeader()
 	}
 	sd.StartHeartbeat()
 	sd.StartMonitor()
@@ -575,6 +607,9 @@ func c10GenLeader(rt *rapid.T) c10Leader {
 	// transient faults of the assignment RPC and restarts of follower processes - only in groups whose
 	// membership is otherwise stable (a failed RPC in the very round that changes the numbering legitimately
 	// leaves that follower behind until the next round)
+	if k > 0 && rapid.IntRange(0, 2).Draw(rt, "early") == 0 {
+		sc.EarlyRegs = rapid.IntRange(1, k).Draw(rt, "earlyregs")
+	}
 	stable := true
 	for _, f := range sc.Followers {
 		stable = stable && f.PingFail == 0
@@ -641,6 +676,9 @@ func TestC10_Leader(t *testing.T) {
 			fail = fail || f.PingFail == 1
 		}
 		labs := []string{"leader_cases"}
+		if scs[i].EarlyRegs > 0 {
+			labs = append(labs, "leader_registrations_before_callback")
+		}
 		for _, f := range scs[i].Followers {
 			if len(f.RpcFail) > 0 {
 				labs = append(labs, "leader_rpc_failure")
